@@ -427,18 +427,25 @@ def cached(job, tier, key_material, compute):
     import fcntl
     if os.environ.get('VP_NOCACHE'):
         return compute()
-    h = hashlib.sha256()
-    h.update(key_material)
-    h.update(_prelude_digest(key_material).encode())
     d = {k: v for k, v in job.items() if k not in ('opts', 'key_props')}
     if 'key_props' in job:        # the property attribution of a job is not part of the verification problem: a job that gained a
         d['props'] = job['key_props']   # property keeps the key it was verified under
-    h.update(json.dumps(d, sort_keys=True, default=str).encode())
-    h.update(tier.encode())
-    key = h.hexdigest()[:32]
+
+    def _key(material):
+        h = hashlib.sha256()
+        h.update(material)
+        h.update(_prelude_digest(key_material).encode())
+        h.update(json.dumps(d, sort_keys=True, default=str).encode())
+        h.update(tier.encode())
+        return h.hexdigest()[:32]
+    # the location of /verif (it only occurs in #line directives of the spliced specs) is not part of the verification problem
+    key = _key(key_material.replace(ROOT.encode(), b'$VERIF'))
     cdir = os.environ.get('VP_CACHE') or os.path.join(OUT, 'cache')
     os.makedirs(cdir, exist_ok=True)
     path = os.path.join(cdir, '%s_%s.json' % (job['name'], key))
+    legacy = os.path.join(cdir, '%s_%s.json' % (job['name'], _key(key_material)))
+    if legacy != path and os.path.exists(legacy) and not os.path.exists(path):
+        os.replace(legacy, path)   # entries written before the location was normalised
     USED_KEYS.add('%s_%s' % (job['name'], key))
     if os.environ.get('VP_KEYLOG'):
         open(os.environ['VP_KEYLOG'], 'a').write('%s_%s\n' % (job['name'], key))
